@@ -38,6 +38,7 @@ func main() {
 	timed("bus-send-deadline", func() { runSend(f, res, drv) })
 	timed("value-pull-pipeline", func() { runValuePipeline(f, res, drv) })
 	timed("collection-subscribers", func() { runCollectionPipelines(f, res, drv) })
+	timed("backpressure-subscriber", func() { runBackpressure(f, res, drv) })
 	timed("writers-and-subscribers (rest of it)", func() {
 		for k, v := range <-latDone {
 			res.Extra[k] = v
@@ -120,6 +121,14 @@ func replay(f lib.Flags) int {
 		}
 		obs := c.runCode("", nil)
 		fmt.Printf("replay crun %s -> %s (list %s)\n", c.key(), obs.answer(), obs.Listed)
+		c.monitor(m, obs)
+	case "brun":
+		var c brunCase
+		if err := json.Unmarshal(raw, &c); err != nil {
+			lib.Fatal(err)
+		}
+		obs := c.runCode("")
+		fmt.Printf("replay brun %s -> %s (received %v)\n", c.key(), obs.answer(), obs.Received)
 		c.monitor(m, obs)
 	case "latency":
 		var c latencyCase
